@@ -2,13 +2,14 @@ SPECIFICATION Spec
 CONSTANTS
   N = 3
   Policies = {"throwing"}
-  Layouts = {"packed", "sizefield", "strlen"}
+  Layouts = {"packed", "strlen"}
   Chars <- Chars012
   Lits <- LitsQ3
   PosDom <- Pos3
   SubDom <- SubQ
   OtherVals <- OtherQ3
   Junk = {9}
+  AliasMode = "none"
 CONSTRAINT OtherBound
 VIEW absview
 INVARIANTS RepInv NoAccessOutside
